@@ -62,4 +62,31 @@ mod axv_tuplelayout {
         kani::assume(n <= 1 << 20);
         assert!(Tuple::keys_offset(n) == TupleHeader::SIZE + null_bitmap_size(n));
     }
+
+    //@ob [C03,C18,C04:tuple.delete_stamps_deleter] level=proved text="Tuple::delete(xid) on a live row stores exactly xid as the deleter and changes nothing else (creator id, version, 16 payload bytes); on an already deleted row it changes nothing; for every creator/deleter id below 2^63 and every payload"
+    #[kani::proof]
+    #[kani::unwind(3)]
+    fn tuple_delete_stamps_deleter() {
+        let mut data = Payload::alloc_aligned(TupleHeader::SIZE + 16).unwrap();
+        let xmin: u64 = kani::any();
+        let old_xmax: Option<u64> = if kani::any() { let x: u64 = kani::any(); kani::assume(x < (1u64 << 63)); Some(x) } else { None };
+        let ver: u8 = kani::any();
+        let body: [u8; 16] = kani::any();
+        {
+            let buf = data.effective_data_mut();
+            TupleHeader::new(ver, xmin, old_xmax).write_to(buf, 0);
+            buf[TupleHeader::SIZE..TupleHeader::SIZE + 16].copy_from_slice(&body);
+        }
+        let mut t = Tuple { data };
+        let xid: u64 = kani::any();
+        kani::assume(xid < (1u64 << 63));
+        assert!(t.delete(xid).is_ok());
+        assert!(t.xmin() == xmin && t.version() == ver);
+        assert!(t.xmax() == if old_xmax.is_some() { old_xmax } else { Some(xid) });
+        let after = t.effective_data();
+        assert!(after[TupleHeader::SIZE] == body[0] && after[TupleHeader::SIZE + 7] == body[7] && after[TupleHeader::SIZE + 15] == body[15]);
+        let k: usize = kani::any();
+        kani::assume(k < 16);
+        assert!(after[TupleHeader::SIZE + k] == body[k]);
+    }
 }
